@@ -343,6 +343,11 @@ func extractHeaderDecoderSSA(p *Program, fn *ssa.Function, lc *layoutCtx) ([]str
 				}
 				if u, isLoad := x.Val.(*ssa.UnOp); isLoad && u.Op == token.MUL && f.Name() == "Version" {
 					if al, isAlloc := u.X.(*ssa.Alloc); isAlloc {
+						// a Version value built here from the first octet (a folded versionFromOctet(data[0]))
+						if it, ok := versionLiteralFromOctet(al, data); ok {
+							at[0] = it
+							continue
+						}
 						versionFrom = al
 						continue
 					}
@@ -853,6 +858,56 @@ func versionDecoderSSA(p *Program) (string, bool) {
 				hi = f.Name()
 			case okc && bo.Op == token.AND && c == 15 && lo == "":
 				lo = f.Name()
+			default:
+				return "", false
+			}
+		}
+	}
+	if hi == "" || lo == "" {
+		return "", false
+	}
+	return "nib:" + hi + "/" + lo, true
+}
+
+// versionLiteralFromOctet: al is a local Version whose two fields are stored once each from data[0]>>4 and
+// data[0]&0xf. Returns "nib:Hi/Lo".
+func versionLiteralFromOctet(al *ssa.Alloc, data ssa.Value) (string, bool) {
+	if !typeIs(al.Type().(*types.Pointer).Elem(), modPath, "Version") {
+		return "", false
+	}
+	firstOctet := func(v ssa.Value) bool {
+		u, ok := stripAllConv(v).(*ssa.UnOp)
+		if !ok || u.Op != token.MUL {
+			return false
+		}
+		ia, ok := u.X.(*ssa.IndexAddr)
+		if !ok || ia.X != data {
+			return false
+		}
+		c, okc := constInt(ia.Index)
+		return okc && c == 0
+	}
+	hi, lo := "", ""
+	for _, rf := range refsOf(al) {
+		fa, ok := rf.(*ssa.FieldAddr)
+		if !ok {
+			continue
+		}
+		for _, r2 := range refsOf(fa) {
+			st, ok := r2.(*ssa.Store)
+			if !ok || st.Addr != ssa.Value(fa) {
+				continue
+			}
+			bo, ok := stripAllConv(st.Val).(*ssa.BinOp)
+			if !ok || !firstOctet(bo.X) {
+				return "", false
+			}
+			c, okc := constInt(bo.Y)
+			switch {
+			case okc && bo.Op == token.SHR && c == 4 && hi == "":
+				hi = fieldName(fa)
+			case okc && bo.Op == token.AND && c == 15 && lo == "":
+				lo = fieldName(fa)
 			default:
 				return "", false
 			}
